@@ -72,6 +72,8 @@ Registered(bph, Ch, nc) == IF DidOf(bph, Ch, nc) > Len(datas) THEN Append(datas,
 \* the record kept as abstract data of an accepted polynomial
 DataOf(bph, Ch, nc, dim) == [bph |-> bph, Ch |-> Ch, bp |-> HV(bph), C |-> HM(Ch), nc |-> nc, dim |-> dim, did |-> DidOf(bph, Ch, nc)]
 
+\* x is the difference a - b up to two units in the last place of the larger operand (however the implementation rounds it)
+Near2(x, a, b) == RLe(RAbs(RSub(x, RSub(a, b))), RMul(RMul("2", Eps), RMax(RMax(RAbs(a), RAbs(b)), RPow("2", -1000))))
 \* what info() must report for the abstract object o (C16: a rejected polynomial is uninitialised, with no segments)
 InfoCands(prop, tag, o, out, extra) ==
     LET info == [tag |-> tag, init |-> o.init, nseg |-> o.nseg, nc |-> o.nc] @@ extra
@@ -81,7 +83,7 @@ InfoCands(prop, tag, o, out, extra) ==
          Cand(prop, tag \o ".data",
               IF o.init THEN out.bp = o.data.bph /\ out.C = o.data.Ch
                              /\ out.start = o.data.bph[1] /\ out.end = o.data.bph[Len(o.data.bph)]
-                             /\ H(out.dur) = RNearest(RSub(o.data.bp[Len(o.data.bp)], o.data.bp[1]))
+                             /\ Near2(H(out.dur), o.data.bp[Len(o.data.bp)], o.data.bp[1])
               ELSE Len(out.bp) = 0 /\ Len(out.C) = 0 /\ H(out.start) = Zero /\ H(out.end) = Zero /\ H(out.dur) = Zero, info)>>
 
 \* the object a (re)initialisation with these arguments produces, by the specification
@@ -124,22 +126,28 @@ TrCopy == (IsEvent("copy") \/ IsEvent("assign")) /\ sc' = CopyStep(Ev)
 DerivData(o, k) ==
     LET d == o.data  nc == d.nc  nseg == o.nseg  n2 == nc - k
     IN IF k >= nc
-       THEN [bph |-> d.bph, bp |-> d.bp, nc |-> 1, dim |-> d.dim,
+       THEN [bph |-> d.bph, bp |-> d.bp, nc |-> 1, dim |-> d.dim, Cx |-> [r \in 1..nseg |-> [c \in 1..d.dim |-> Zero]],
              C |-> [r \in 1..nseg |-> [c \in 1..d.dim |-> Zero]], Ch |-> [r \in 1..nseg |-> [c \in 1..d.dim |-> "0x0p+0"]]]
        ELSE LET Cq == Force([r \in 1..(nseg * n2) |->
                          LET seg == ((r - 1) \div n2) + 1  j == (r - 1) - (seg - 1) * n2
                          IN [c \in 1..d.dim |-> RNearest(RMul(RInt(FF(j + k, k)), d.C[(seg - 1) * nc + j + k + 1][c]))]])
-            IN [bph |-> d.bph, bp |-> d.bp, nc |-> n2, dim |-> d.dim, C |-> Cq, Ch |-> <<>>]
+                Cxq == Force([r \in 1..(nseg * n2) |->
+                         LET seg == ((r - 1) \div n2) + 1  j == (r - 1) - (seg - 1) * n2
+                         IN [c \in 1..d.dim |-> RMul(RInt(FF(j + k, k)), d.C[(seg - 1) * nc + j + k + 1][c])]])
+            IN [bph |-> d.bph, bp |-> d.bp, nc |-> n2, dim |-> d.dim, C |-> Cq, Cx |-> Cxq, Ch |-> <<>>]
 DerivStep(ev) ==
     LET o == pobjs[ev.src]
         dd == Force(IF o.init THEN DerivData(o, ev.k) ELSE <<>>)
         \* keep the logged bits as the new object's data (they are checked to denote the predicted values)
-        data == Force(IF o.init THEN [f \in DOMAIN dd \ {"Ch"} |-> dd[f]] @@ [Ch |-> ev.out.C, did |-> DidOf(dd.bph, ev.out.C, dd.nc)] ELSE <<>>)
+        data == Force(IF o.init THEN [f \in DOMAIN dd \ {"Ch", "C", "Cx"} |-> dd[f]] @@ [Ch |-> ev.out.C, C |-> HM(ev.out.C), did |-> DidOf(dd.bph, ev.out.C, dd.nc)] ELSE <<>>)
         info == [k |-> ev.k, nc |-> o.nc, nseg |-> o.nseg]
         cands == IF ~o.init THEN <<Cand("C03", "deriv.uninit", ~ev.out.init /\ ev.out.nseg = 0, info)>>
                  ELSE <<Cand("C03", "deriv.shape", ev.out.init /\ ev.out.nseg = o.nseg /\ ev.out.nc = dd.nc /\ ev.out.bp = o.data.bph
                                                    /\ Len(ev.out.C) = Len(dd.C), info),
-                        Cand("C03", "deriv.coef", Len(ev.out.C) = Len(dd.C) /\ HM(ev.out.C) = dd.C, info)>>
+                        \* differentiated coefficients: ff(k,d) c_k up to a few roundings (their exact bits are not prescribed; the VALUE
+                        \* route-independence of evaluating the derivative trajectory is judged by the routes events)
+                        Cand("C03", "deriv.coef", Len(ev.out.C) = Len(dd.C) /\ \A r \in 1..Len(dd.C) : \A c \in 1..Len(dd.C[r]) :
+                                  RLe(RAbs(RSub(H(ev.out.C[r][c]), dd.Cx[r][c])), RMul(RMul("4", Eps), RAbs(dd.Cx[r][c]))), info)>>
     IN Force([StepRec(cands, <<"derivatives">>) EXCEPT !.datas = IF o.init THEN Registered(dd.bph, ev.out.C, dd.nc) ELSE datas] @@ [data |-> data])
 TrDerivative == IsEvent("derivative") /\ sc' = DerivStep(Ev) /\ PDerivative(Ev.dst, Ev.src, Ev.k, sc'.data) /\ Record
 
@@ -219,7 +227,7 @@ SegInfoStep(ev) ==
         d == o.data
         info == [seg |-> i, nseg |-> o.nseg, nc |-> o.nc]
         cands == <<Cand("C03", "seg.times", ev.out.startTime = d.bph[i + 1] /\ ev.out.endTime = d.bph[i + 2]
-                                             /\ H(ev.out.duration) = RNearest(RSub(d.bp[i + 2], d.bp[i + 1])) /\ ev.out.index = i, info),
+                                             /\ Near2(H(ev.out.duration), d.bp[i + 2], d.bp[i + 1]) /\ ev.out.index = i, info),
                    Cand("C03", "seg.coeffs", ev.out.coeffs = SubSeq(d.Ch, i * o.nc + 1, (i + 1) * o.nc), info),
                    Cand("C03", "seg.iteration", ev.out.iter_count = o.nseg /\ ev.out.iter_in_order /\ ev.out.end_minus_begin = o.nseg, info)>>
     IN Force(StepRec(cands, <<"seg_infos">>))
